@@ -75,6 +75,16 @@ pub fn execute_n(sc: &Scenario, loss: LossMode, slack: u64, keep_log: bool) -> (
 }
 
 impl ModelCheck {
+    /// C05 only: one run in ten is a small concurrent program on ring T racing
+    /// on a key that is just alive or just expired and not yet collected
+    fn ring_t(&self, index: u64) -> bool {
+        (self.id == "C05" || self.id == "C08") && index % 10 == 9
+    }
+    fn tcheck(&self) -> crate::checks::tchecks::TCheck {
+        crate::checks::tchecks::TCheck {
+            kind: if self.id == "C08" { crate::checks::tchecks::TKind::C08 } else { crate::checks::tchecks::TKind::C05 },
+        }
+    }
     fn gen_sc(&self, run_seed: u64, tier: Tier) -> (Scenario, &'static str) {
         let mut krng = Rng::sub(run_seed, "knobs");
         let mut knobs = knobs_for(&mut krng, run_seed);
@@ -137,18 +147,35 @@ impl Check for ModelCheck {
             Tier::Thorough => self.thorough_runs,
         }
     }
-    fn generate(&self, run_seed: u64, _index: u64, tier: Tier) -> Case {
+    fn generate(&self, run_seed: u64, index: u64, tier: Tier) -> Case {
+        if self.ring_t(index) {
+            return self.tcheck().generate(run_seed, index, tier);
+        }
         let (sc, kind) = self.gen_sc(run_seed, tier);
         Case {
             kind: kind.into(),
             data: json!({"scenario": sc.to_json()}),
         }
     }
-    fn run_fast(&self, run_seed: u64, _index: u64, tier: Tier) -> Option<Outcome> {
+    fn run_fast(&self, run_seed: u64, index: u64, tier: Tier) -> Option<Outcome> {
+        if self.ring_t(index) {
+            return None;
+        }
         let (sc, kind) = self.gen_sc(run_seed, tier);
         Some(self.exec_sc(&sc, kind, false))
     }
+    fn shrink(&self, case: &Case) -> Vec<Case> {
+        if case.kind == "T" {
+            return self.tcheck().shrink(case);
+        }
+        crate::minimise::shrink_scenario_case(case)
+    }
     fn execute(&self, case: &Case) -> Outcome {
+        if case.kind == "T" {
+            let mut out = self.tcheck().execute(case);
+            out.count("ring_T_runs", 1);
+            return out;
+        }
         let sc = match Scenario::from_json(&case.data["scenario"]) {
             Some(s) => s,
             None => {
@@ -160,10 +187,17 @@ impl Check for ModelCheck {
         self.exec_sc(&sc, if case.kind == "N" { "N" } else { "H" }, keep_log)
     }
     fn rule(&self) -> String {
-        format!(
+        let mut r = format!(
             "seeded command histories ({}) over 2-6 keys run through the real codec/handler/store under a simulated clock (ring H) and checked operation by operation against the reference model; a run is non-trivial when at least one command's outcome depended on earlier state (key present, expired or unknown when addressed); distinct = distinct event-log fingerprints (all request bytes, response bytes, clock readings)",
             self.focus
-        )
+        );
+        if self.id == "C08" {
+            r.push_str("; one run in ten is a ring-T program of 2-3 client threads x 1-3 commands under a seeded schedule: (a) delete with CAS 0 / the current / a stale CAS racing set / cas-set / get on one key (absent, present, two versions, expired and not yet collected): the history must be linearizable, and a failure that disappears when the deletes are left free is reported as the deletes' fault; (b) immediate flushes racing stores over 3-4 keys: a value acknowledged before a flush was invoked is never read after that flush returned, and a store invoked after every flush returned (and not disturbed afterwards) is what the final read returns");
+        }
+        if self.id == "C05" {
+            r.push_str("; TTLs up to 2^32-1 s and clock advances up to 5e9 s (every TTL is seconds from the store); one run in ten is a ring-T program: 2-3 client threads x 1-3 commands (get/getk/add/replace/append/prepend/incr/decr with and without creation/set/cas-set/delete) racing under a seeded schedule on a key whose item is one second inside its TTL, exactly at expiry, or past it and not yet collected, clock fixed while they overlap; oracle: nothing returned is (derived from) the expired value, every command sees the key absent when no command can create it, and present when the item is alive and nothing deletes it");
+        }
+        r
     }
     fn assumptions(&self) -> Vec<String> {
         vec![
@@ -179,6 +213,9 @@ impl Check for ModelCheck {
         })
     }
     fn sample(&self, case: &Case) -> Value {
+        if case.kind == "T" {
+            return case.data["program"].clone();
+        }
         // compact: first 12 events only
         let mut v = case.data["scenario"].clone();
         if let Some(ev) = v.get_mut("events").and_then(|e| e.as_array_mut()) {
